@@ -200,7 +200,7 @@ func (n *node) stop() {
 	}
 }
 
-const rule = "state machine on up to 4 full Cluster instances (real Raft consensus with data folders, set explicitly or derived from the base directory, harness tracker/monitor/IPFS) on loopback: initial cluster of 1-3 members (one case in four pre-loaded with 1200 pins and MaxAppendEntries 1-4; each peer with 0-2 older backups of Raft data on disk), then 3-6 steps of pin/unpin at any member, PeerAdd of a fresh staging peer at any member, Join of a fresh peer through any member, PeerRemove issued at any member against any member (leader, follower, the caller itself), PeerAdd of a present peer, PeerRemove of an absent peer, removal of the last peer, crash of the leader followed at once by its removal at a follower (commit_retries 0-2), an add at a leader that was just partitioned off (fails), healing and later removal of that ex-leader; re-pinning on or off; model = member set and pinset; oracle after each step (bounded polling): every running member reports the model's peerset and pinset, no-ops return nil and change nothing, the last peer cannot be removed, a new peer lists exactly the model pinset at the moment it reports ready, a removed peer shuts itself down and its Raft data folder is cleaned, and with re-pinning on no pin is left allocated only to the removed peer; non-trivial = a removal of a peer holding pins or a join/add after pins exist; distinct by script"
+const rule = "state machine on up to 4 full Cluster instances (real Raft consensus with data folders, set explicitly or derived from the base directory, harness tracker/monitor/IPFS) on loopback: initial cluster of 1-3 members (one case in four pre-loaded with 1200 pins and MaxAppendEntries 1-4; each peer with 0-2 older backups of Raft data on disk), then 3-6 steps of pin/unpin at any member (on one peer, on everybody, or on as many peers as there are members), PeerAdd of a fresh staging peer at any member, Join of a fresh peer through any member, PeerRemove issued at any member against any member (leader, follower, the caller itself), PeerAdd of a present peer, PeerRemove of an absent peer, removal of the last peer, removal of a peer that holds pins which can be re-homed next to pins which cannot, crash of the leader followed at once by its removal at a follower (commit_retries 0-2), an add at a leader that was just partitioned off (fails), healing and later removal of that ex-leader; re-pinning on or off; model = member set and pinset; oracle after each step (bounded polling): every running member reports the model's peerset and pinset, no-ops return nil and change nothing, the last peer cannot be removed, a new peer lists exactly the model pinset at the moment it reports ready, a removed peer shuts itself down and its Raft data folder is cleaned, and with re-pinning on no pin is left allocated only to the removed peer; non-trivial = a removal of a peer holding pins or a join/add after pins exist; distinct by script"
 
 func TestMembership(t *testing.T) {
 	leg := ev.L("membership", rule)
@@ -417,13 +417,91 @@ func TestMembership(t *testing.T) {
 			}
 			settle("after adding a peer")
 		}
+		var removePeer func(t *rapid.T, at, x int)
+		removePeer = func(t *rapid.T, at, x int) {
+			script = append(script, fmt.Sprintf("peerRemove(%d at %d)", x, at))
+			setMetrics()
+			if len(members) == 1 {
+				err := nodes[at].f.C.PeerRemove(ctx, gen.Peers[x])
+				if err == nil {
+					fail("the last peer was removed")
+				}
+				classes["remove-last"] = true
+				settle("after refusing to remove the last peer")
+				return
+			}
+			held := false
+			for _, p := range model {
+				for _, a := range p.Allocations {
+					if a == gen.Peers[x] {
+						held = true
+					}
+				}
+			}
+			if err := nodes[at].f.C.PeerRemove(ctx, gen.Peers[x]); err != nil {
+				leg.Inconclusive(fmt.Sprintf("PeerRemove returned an error: %v", err))
+				t.Skip("not acknowledged")
+			}
+			delete(members, x)
+			if at == x {
+				classes["remove-self"] = true
+			}
+			// the removed peer stops itself
+			select {
+			case <-nodes[x].f.C.Done():
+			case <-time.After(60 * time.Second):
+				fail("removed peer %d did not shut itself down within 60 s", x)
+			}
+			nodes[x].up = false
+			nodes[x].f.Host.Close()
+			if _, err := os.Stat(filepath.Join(nodes[x].folder, "raft")); err == nil {
+				fail("removed peer %d still has its Raft data folder", x)
+			}
+			// re-pinning: refresh the model's allocations from a remaining member
+			if repin {
+				setMetrics()
+				time.Sleep(100 * time.Millisecond)
+				rem := memberList()[0]
+				ps, err := nodes[rem].f.C.Pins(ctx)
+				if err == nil {
+					for _, p := range ps {
+						if model[p.Cid.String()] != nil {
+							only := len(p.Allocations) > 0
+							for _, a := range p.Allocations {
+								if a != gen.Peers[x] {
+									only = false
+								}
+							}
+							if only {
+								fail("re-pinning is enabled but pin %s is still allocated only to the removed peer %d", p.Cid, x)
+							}
+							model[p.Cid.String()] = p
+						}
+					}
+				}
+			}
+			if held {
+				classes["nontrivial"] = true
+				classes["removed-holder"] = true
+			}
+			settle("after removing a peer")
+
+		}
 		t.Repeat(map[string]func(*rapid.T){
 			"pin": func(t *rapid.T) {
 				at := pick(t, "at")
 				c := gen.CidN(4).Draw(t, "cid")
 				o := api.PinOptions{Name: fmt.Sprintf("n%d", len(script)), ReplicationFactorMin: 1, ReplicationFactorMax: 1}
-				if rapid.Bool().Draw(t, "everywhere") {
+				switch rapid.IntRange(0, 3).Draw(t, "factors") {
+				case 0, 1:
 					o.ReplicationFactorMin, o.ReplicationFactorMax = -1, -1
+				case 2:
+					// on every current member by number: once a holder leaves,
+					// this pin cannot be brought back to its minimum
+					if n := len(members); n >= 2 {
+						o.ReplicationFactorMin, o.ReplicationFactorMax = n, n
+						classes["pin-on-all-members-by-number"] = true
+					}
 				}
 				setMetrics()
 				script = append(script, fmt.Sprintf("pin@%d(c%d,%s)", at, idxCid(c), o.Name))
@@ -653,74 +731,42 @@ func TestMembership(t *testing.T) {
 				classes["nontrivial"] = true
 				settle("after removing the ex-leader")
 			},
-			"peerRemove": func(t *rapid.T) {
-				at, x := pick(t, "at"), pick(t, "who")
-				script = append(script, fmt.Sprintf("peerRemove(%d at %d)", x, at))
+			"peerRemove": func(t *rapid.T) { removePeer(t, pick(t, "at"), pick(t, "who")) },
+			"removeHolderOfMixedPins": func(t *rapid.T) {
+				// the departing peer holds a pin that cannot be re-homed (as many
+				// copies asked for as there are members) next to pins that can:
+				// the ones that can must all move
+				if !repin || len(members) < 2 {
+					t.Skip("needs re-pinning and two members")
+				}
+				x := pick(t, "who")
+				at := x
+				for _, i := range memberList() {
+					if i != x {
+						at = i
+					}
+				}
+				if rapid.IntRange(0, 3).Draw(t, "removeItself") == 0 {
+					at = x
+				}
+				n := len(members)
 				setMetrics()
-				if len(members) == 1 {
-					err := nodes[at].f.C.PeerRemove(ctx, gen.Peers[x])
-					if err == nil {
-						fail("the last peer was removed")
+				for ci, c := range gen.Cids[:4] {
+					o := api.PinOptions{Name: fmt.Sprintf("n%d", len(script)), ReplicationFactorMin: 1, ReplicationFactorMax: 1, UserAllocations: []peer.ID{gen.Peers[x]}}
+					if ci%2 == rapid.IntRange(0, 1).Draw(t, "parity") {
+						o = api.PinOptions{Name: fmt.Sprintf("n%d", len(script)), ReplicationFactorMin: n, ReplicationFactorMax: n}
 					}
-					classes["remove-last"] = true
-					settle("after refusing to remove the last peer")
-					return
-				}
-				held := false
-				for _, p := range model {
-					for _, a := range p.Allocations {
-						if a == gen.Peers[x] {
-							held = true
-						}
+					script = append(script, fmt.Sprintf("pin@%d(c%d,%s,%d/%d)", at, ci, o.Name, o.ReplicationFactorMin, o.ReplicationFactorMax))
+					p, err := nodes[at].f.C.Pin(ctx, c, o)
+					if err != nil {
+						leg.Inconclusive(fmt.Sprintf("pin returned an error: %v", err))
+						t.Skip("not acknowledged")
 					}
+					model[c.String()] = p
 				}
-				if err := nodes[at].f.C.PeerRemove(ctx, gen.Peers[x]); err != nil {
-					leg.Inconclusive(fmt.Sprintf("PeerRemove returned an error: %v", err))
-					t.Skip("not acknowledged")
-				}
-				delete(members, x)
-				if at == x {
-					classes["remove-self"] = true
-				}
-				// the removed peer stops itself
-				select {
-				case <-nodes[x].f.C.Done():
-				case <-time.After(60 * time.Second):
-					fail("removed peer %d did not shut itself down within 60 s", x)
-				}
-				nodes[x].up = false
-				nodes[x].f.Host.Close()
-				if _, err := os.Stat(filepath.Join(nodes[x].folder, "raft")); err == nil {
-					fail("removed peer %d still has its Raft data folder", x)
-				}
-				// re-pinning: refresh the model's allocations from a remaining member
-				if repin {
-					setMetrics()
-					time.Sleep(100 * time.Millisecond)
-					rem := memberList()[0]
-					ps, err := nodes[rem].f.C.Pins(ctx)
-					if err == nil {
-						for _, p := range ps {
-							if model[p.Cid.String()] != nil {
-								only := len(p.Allocations) > 0
-								for _, a := range p.Allocations {
-									if a != gen.Peers[x] {
-										only = false
-									}
-								}
-								if only {
-									fail("re-pinning is enabled but pin %s is still allocated only to the removed peer %d", p.Cid, x)
-								}
-								model[p.Cid.String()] = p
-							}
-						}
-					}
-				}
-				if held {
-					classes["nontrivial"] = true
-					classes["removed-holder"] = true
-				}
-				settle("after removing a peer")
+				settle("after pinning on the peer that is about to leave")
+				classes["mixed-pins-on-removed-peer"] = true
+				removePeer(t, at, x)
 			},
 		})
 		var cl []string
